@@ -145,7 +145,22 @@ class Interp:
             env[var] = c
         for var, a in zip(jaxpr.invars, args):
             env[var] = a
-        for eqn in jaxpr.eqns:
+        # liveness: an equation none of whose results reaches an output is not evaluated (values only; the single
+        # effectful primitives that occur, debug prints, are no-ops here and everything feeding only them is dead)
+        live = {v for v in jaxpr.outvars if not hasattr(v, "val")}
+        keep = [False] * len(jaxpr.eqns)
+        for k in range(len(jaxpr.eqns) - 1, -1, -1):
+            eqn = jaxpr.eqns[k]
+            if eqn.primitive.name in ("debug_callback", "debug_print"):
+                continue
+            if any((type(o).__name__ != "DropVar" and o in live) for o in eqn.outvars):
+                keep[k] = True
+                for v in eqn.invars:
+                    if not hasattr(v, "val"):
+                        live.add(v)
+        for k, eqn in enumerate(jaxpr.eqns):
+            if not keep[k]:
+                continue
             self.n_eqns += 1
             name = eqn.primitive.name
             self.prims_seen[name] = self.prims_seen.get(name, 0) + 1
